@@ -113,12 +113,12 @@ Example C04_total_ex : plan c3_cs = POk c3_plan /\ length c3_plan = 6.
 Proof. vm_compute. split; reflexivity. Qed.
 
 Example C04_once_ex :
-  plan sr_cs = POk sr_plan /\ flat_map adds sr_plan = [0] /\ flat_map drops sr_plan = [1; 2].
+  plan sr_cs = POk sr_plan /\ flat_map adds sr_plan = ktabs [0] /\ flat_map drops sr_plan = ktabs [1; 2].
 Proof. vm_compute. repeat split; reflexivity. Qed.
 
 Example C04_once_fks_ex :
-  plan c3_cs = POk c3_plan /\ flat_map decl c3_cs = [(0, 21, 1); (1, 22, 2); (2, 20, 0)] /\
-  flat_map decl c3_plan = [(0, 21, 1); (1, 22, 2); (2, 20, 0)].
+  plan c3_cs = POk c3_plan /\ flat_map decl c3_cs = kfks [(0, 21, 1); (1, 22, 2); (2, 20, 0)] /\
+  flat_map decl c3_plan = kfks [(0, 21, 1); (1, 22, 2); (2, 20, 0)].
 Proof. vm_compute. repeat split; reflexivity. Qed.
 
 Example C04_once_wf_ex : WF sr_cs /\ plan sr_cs = POk sr_plan.
@@ -128,14 +128,14 @@ Proof. exact (conj sr_wf (proj1 (proj2 sr_runs))). Qed.
 Example C04_safe_ex_3cycle :
   WF c3_cs /\ consistent c3_cat c3_cs /\
   sortMap c3_cs = SMCycle /\ plan c3_cs = POk c3_plan /\
-  replay c3_plan c3_cat = Some (mkCat [2; 1; 0] [(0, 21, 1); (1, 22, 2); (2, 20, 0)]).
+  replay c3_plan c3_cat = Some (kcat [2; 1; 0] [(0, 21, 1); (1, 22, 2); (2, 20, 0)]).
 Proof. exact (conj c3_wf (conj c3_cons c3_runs)). Qed.
 
 (* cycle branch: a created self-referencing table, a dropped self-referencing table in a 2-cycle of drops *)
 Example C04_safe_ex_selfref :
   WF sr_cs /\ consistent sr_cat sr_cs /\
   sortMap sr_cs = SMCycle /\ plan sr_cs = POk sr_plan /\
-  replay sr_plan sr_cat = Some (mkCat [0] [(0, 20, 0)]).
+  replay sr_plan sr_cat = Some (kcat [0] [(0, 20, 0)]).
 Proof. exact (conj sr_wf (conj sr_cons sr_runs)). Qed.
 
 (* cycle branch, the former counterexample: SortChanges moves CREATE TABLE 1 in front of the ALTER of
@@ -147,14 +147,14 @@ Example C04_safe_ex_repoint_cycle :
       AddTable (des 1) [];
       ModifyTable (des 1) [AddFK (mkFK 21 (des 1) (des 0))] ] /\
   plan cx_cs = POk cx_plan /\
-  replay cx_plan cx_cat = Some (mkCat [1; 0; 2] [(0, 5, 1); (1, 21, 0)]).
+  replay cx_plan cx_cat = Some (kcat [1; 0; 2] [(0, 5, 1); (1, 21, 0)]).
 Proof. exact (conj cx_wf (conj cx_cons cx_runs)). Qed.
 
 (* cycle-free branch: a re-pointed key to a created table, a chain, a drop *)
 Example C04_safe_ex_chain :
   WF ch_cs /\ consistent ch_cat ch_cs /\
   sortMap ch_cs = SMOk [2; 1; 0] /\ plan ch_cs = POk ch_plan /\
-  replay ch_plan ch_cat = Some (mkCat [1; 2; 0] [(1, 22, 2); (0, 5, 1)]).
+  replay ch_plan ch_cat = Some (kcat [1; 2; 0] [(1, 22, 2); (0, 5, 1)]).
 Proof. exact (conj ch_wf (conj ch_cons ch_runs)). Qed.
 
 (* the dialect plans of the chain example: the re-pointed key becomes DROP then ADD *)
@@ -164,8 +164,8 @@ Example C04_safe_ex_dialects :
       ModifyTable (des 0) [DropFK (mkFK 5 (cur 0) (cur 3))];
       ModifyTable (des 0) [AddFK (mkFK 5 (des 0) (des 1))];
       DropTable (cur 3) [] ] /\
-  replay (flat_map mysql_sources ch_plan) ch_cat = Some (mkCat [1; 2; 0] [(1, 22, 2); (0, 5, 1)]) /\
-  replay (flat_map pg_sources ch_plan) ch_cat = Some (mkCat [1; 2; 0] [(1, 22, 2); (0, 5, 1)]).
+  replay (flat_map mysql_sources ch_plan) ch_cat = Some (kcat [1; 2; 0] [(1, 22, 2); (0, 5, 1)]) /\
+  replay (flat_map pg_sources ch_plan) ch_cat = Some (kcat [1; 2; 0] [(1, 22, 2); (0, 5, 1)]).
 Proof. vm_compute. repeat split; reflexivity. Qed.
 
 Example C04_safe_ex_tiebreak : detach_spec ch_cs [AddTable (des 2) []; DropTable (cur 3) [];
